@@ -126,4 +126,87 @@ theorem runView_deterministic {s : State} (h : WF s) (g : GName) (r : ReadOp) :
   rw [runView_asView h g r]
   exact run_deterministic (asView_wf h g) r
 
+/-! ### `ReadOnlyGraphAggregate`: what its reads mean -/
+
+theorem seenAny_iff (qs : List Quad) (t : Triple) (seen : List GName) :
+    seen.any (fun g' => (triplesOf qs g').contains t) = true ↔ ∃ g' ∈ seen, (t, g') ∈ qs := by
+  simp [mem_triplesOf]
+
+/-- `triples(pat)` yields the matching triples some member holds and no member before it held -/
+theorem mem_aggTriples (qs : List Quad) (pat : Pat) (t : Triple) :
+    ∀ (gs seen : List GName), t ∈ aggTriples qs pat seen gs ↔
+      pat.matches t = true ∧ (∃ g ∈ gs, (t, g) ∈ qs) ∧ ¬ ∃ g' ∈ seen, (t, g') ∈ qs
+  | [], seen => by simp [aggTriples]
+  | g :: gs, seen => by
+    have hp : (pat.matches t && !(seen.any (fun g' => (triplesOf qs g').contains t))) = true ↔
+        pat.matches t = true ∧ ¬ ∃ g' ∈ seen, (t, g') ∈ qs := by
+      rw [← seenAny_iff]; simp
+    unfold aggTriples
+    simp only [List.mem_append, List.mem_filter, mem_triplesOf, mem_aggTriples qs pat t gs (seen ++ [g]), hp]
+    constructor
+    · rintro (⟨h1, h2, h3⟩ | ⟨h1, ⟨g2, hg2, h2⟩, h3⟩)
+      · exact ⟨h2, ⟨g, List.mem_cons_self, h1⟩, h3⟩
+      · refine ⟨h1, ⟨g2, List.mem_cons_of_mem _ hg2, h2⟩, ?_⟩
+        rintro ⟨g', hg', h4⟩
+        exact h3 ⟨g', Or.inl hg', h4⟩
+    · rintro ⟨h1, ⟨g2, hg2, h2⟩, h3⟩
+      by_cases hg : (t, g) ∈ qs
+      · exact Or.inl ⟨hg, h1, h3⟩
+      · right
+        rcases List.mem_cons.mp hg2 with e | e
+        · subst e; exact absurd h2 hg
+        · refine ⟨h1, ⟨g2, e, h2⟩, ?_⟩
+          rintro ⟨g', hg', h4⟩
+          rcases hg' with e' | e'
+          · exact h3 ⟨g', e', h4⟩
+          · simp only [List.mem_singleton] at e'
+            subst e'
+            exact hg h4
+
+theorem aggContains_iff (qs : List Quad) (pat : Pat) : ∀ (gs : List GName),
+    aggContains qs pat gs = true ↔ ∃ t, pat.matches t = true ∧ ∃ g ∈ gs, (t, g) ∈ qs
+  | [] => by simp [aggContains]
+  | g :: gs => by
+    unfold aggContains
+    rw [Bool.or_eq_true, aggContains_iff qs pat gs]
+    have h1 : (!((triplesOf qs g).filter pat.matches).isEmpty) = true ↔
+        ∃ t, pat.matches t = true ∧ (t, g) ∈ qs := by
+      cases hl : (triplesOf qs g).filter pat.matches with
+      | nil =>
+        simp only [List.isEmpty_nil, Bool.not_true, Bool.false_eq_true, false_iff]
+        rintro ⟨t, ht, hq⟩
+        have : t ∈ (triplesOf qs g).filter pat.matches := List.mem_filter.mpr ⟨mem_triplesOf.mpr hq, ht⟩
+        rw [hl] at this
+        cases this
+      | cons a as =>
+        simp only [List.isEmpty_cons, Bool.not_false, true_iff]
+        have : a ∈ (triplesOf qs g).filter pat.matches := by rw [hl]; exact List.mem_cons_self
+        obtain ⟨ha1, ha2⟩ := List.mem_filter.mp this
+        exact ⟨a, ha2, mem_triplesOf.mp ha1⟩
+    rw [h1]
+    constructor
+    · rintro (⟨t, ht, hq⟩ | ⟨t, ht, g2, hg2, hq⟩)
+      · exact ⟨t, ht, g, List.mem_cons_self, hq⟩
+      · exact ⟨t, ht, g2, List.mem_cons_of_mem _ hg2, hq⟩
+    · rintro ⟨t, ht, g2, hg2, hq⟩
+      rcases List.mem_cons.mp hg2 with e | e
+      · subst e; exact Or.inl ⟨t, ht, hq⟩
+      · exact Or.inr ⟨t, ht, g2, e, hq⟩
+
+theorem mem_aggQuads (qs : List Quad) (pat : Pat) (q : Quad) : ∀ (gs : List GName),
+    q ∈ aggQuads qs pat gs ↔ pat.matches q.1 = true ∧ q.2 ∈ gs ∧ q ∈ qs
+  | [] => by simp [aggQuads]
+  | g :: gs => by
+    obtain ⟨t, g0⟩ := q
+    unfold aggQuads
+    simp only [List.mem_append, mem_tagWith, List.mem_filter, mem_triplesOf, mem_aggQuads qs pat (t, g0) gs,
+      List.mem_cons]
+    constructor
+    · rintro (⟨h1, h2, h3⟩ | ⟨h1, h2, h3⟩)
+      · subst h1; exact ⟨h3, Or.inl rfl, h2⟩
+      · exact ⟨h1, Or.inr h2, h3⟩
+    · rintro ⟨h1, h2 | h2, h3⟩
+      · subst h2; exact Or.inl ⟨rfl, h3, h1⟩
+      · exact Or.inr ⟨h1, h2, h3⟩
+
 end RV.C13
